@@ -61,13 +61,21 @@ pub fn exec_case_inline(engine: &dyn Engine, case: &Value) -> RunOutcome {
 
 fn status_to_violations(property: &str, st: &JobStatus, case: &Value) -> (Vec<Violation>, Option<String>) {
     match st {
-        JobStatus::Done(o) => (o.violations.clone(), o.harness_error.clone()),
+        JobStatus::Done(o) => {
+            let mut vs = o.violations.clone();
+            for v in vs.iter_mut() {
+                if let Some(site) = v.sig.get("site").cloned() {
+                    v.sig.insert("site".to_string(), crate::site::stable_from_str(&site));
+                }
+            }
+            (vs, o.harness_error.clone())
+        }
         JobStatus::Crashed { status, stderr_tail } => {
             let mut sig = BTreeMap::new();
             sig.insert("status".to_string(), status.clone());
             let site = panic_site(stderr_tail);
             if let Some(s) = &site {
-                sig.insert("site".to_string(), s.clone());
+                sig.insert("site".to_string(), crate::site::stable_from_str(s));
             }
             (
                 vec![Violation {
